@@ -54,12 +54,23 @@ def subproblems(draw, solvers=SOLVERS):
     # 12 decades (1e-6..1e6), occasionally three more at the small end (gradients down to 1e-10)
     mg = draw(decade()) * draw(st.sampled_from([1.0, 1.0, 1.0, 1.0, 1e-3]))
     g = [draw(small()) * mg for _ in range(n)]
+    blocked = None
+    if n >= 2 and draw(st.integers(0, 7)) == 0:
+        # one component 2^20..2^36 times the others, pushing against a bound active at the origin: the
+        # full gradient is dominated by a component the step cannot use (seeded change C16n)
+        blocked = draw(st.integers(0, n - 1))
+        g[blocked] = (g[blocked] if g[blocked] != 0.0 else mg) * 2.0 ** draw(st.integers(20, 36))
     r = draw(st.integers(0, n))
     B = [[draw(st.sampled_from([-1.0, 0.0, 1.0, 2.0])) for _ in range(r)] for _ in range(n)]
     D = [draw(st.sampled_from([-1.0, 1.0, 0.01, 3.0, 1.0])) for _ in range(r)]
     mh = draw(decade()) * draw(st.sampled_from([0.0, 1.0, 1.0]))
     xl = [-abs(draw(st.sampled_from([0.0, 0.0, 1.0, 0.5, 2.0, 1e-3, 1e3, math.inf, math.inf]))) for _ in range(n)]
     xu = [abs(draw(st.sampled_from([0.0, 0.0, 1.0, 0.5, 2.0, 1e-3, 1e3, math.inf, math.inf]))) for _ in range(n)]
+    if blocked is not None:
+        if g[blocked] > 0.0:
+            xl[blocked] = 0.0
+        else:
+            xu[blocked] = 0.0
     delta = draw(decade()) * draw(st.sampled_from([1.0, 0.5, 2.0, 1.0]))
     sp = {"solver": solver, "n": n, "g": g, "B": B, "D": D, "mh": mh, "xl": xl, "xu": xu, "delta": delta,
           "improve_tcg": draw(st.booleans())}
